@@ -618,9 +618,12 @@ Definition node_inv (x : node) : Prop :=
 Lemma node_inv0 : node_inv node0.
 Proof. reflexivity. Qed.
 
+Lemma set_current_deal_ge l r : deal l <= deal (set_current l r).
+Proof. unfold set_current; cbn [deal]. destruct (deal l <? r) eqn:L; [apply N.ltb_lt in L|]; lia. Qed.
+
 Lemma node_inv_step x l : node_inv x -> node_inv (fst (nstep x l)).
 Proof.
-  unfold node_inv. destruct l as [v| | |]; cbn [nstep].
+  unfold node_inv. destruct l as [v| | | | |r]; cbn [nstep].
   - destruct (n_pc x) eqn:P; cbn [fst n_pc n_flag]; rewrite ?P; auto.
   - destruct (n_pc x) eqn:P; cbn [fst n_pc n_flag n_lead]; rewrite ?P; auto.
     intros F. split; [|exact F]. unfold set_current; cbn [deal].
@@ -628,6 +631,10 @@ Proof.
   - destruct (n_pc x) eqn:P; cbn [fst n_pc n_flag n_lead]; rewrite ?P; auto. intros [H _]. exact H.
   - destruct (n_flag x) eqn:F; cbn [fst n_pc n_flag n_lead]; [|rewrite F; auto].
     destruct (n_pc x) eqn:P; try congruence; [intros [_ H]; congruence|]. intros H. cbn [deal]. lia.
+  - destruct (n_flag x) eqn:F; cbn [fst n_pc n_flag n_lead]; rewrite ?F; auto.
+  - destruct (n_pending x); cbn [fst n_pc n_flag n_lead]; auto.
+    pose proof (set_current_deal_ge (n_lead x) r) as G.
+    destruct (n_pc x); auto; [intros [H F]; split; [lia|exact F]|intros H; lia].
 Qed.
 
 (* the leader flag implies that the parsed version has been installed (IsLeader() => base set) *)
@@ -636,20 +643,23 @@ Proof.
   unfold node_inv. intros I F. destruct (n_pc x) eqn:P; try congruence; [destruct I; congruence|]. eauto.
 Qed.
 
+Lemma nstep_leading_stable v x l : n_pc x = CbLeading v -> n_pc (fst (nstep x l)) = CbLeading v.
+Proof.
+  intros P. destruct l as [w| | | | |r]; cbn [nstep]; rewrite ?P; cbn [fst]; try (first [exact P|reflexivity]).
+  - destruct (n_flag x); cbn [fst n_pc]; first [exact P|reflexivity].
+  - destruct (n_flag x); cbn [fst n_pc]; first [exact P|reflexivity].
+  - destruct (n_pending x); cbn [fst n_pc]; first [exact P|reflexivity].
+Qed.
+
 Lemma leading_stable v ls : forall x, n_pc x = CbLeading v -> n_pc (fst (nrun x ls)) = CbLeading v.
 Proof.
   induction ls as [|l tl IH]; intros x P; [exact P|]. cbn [nrun].
-  destruct (nstep x l) as [x1 o] eqn:S. specialize (IH x1).
-  destruct (nrun x1 tl) as [x2 os]. cbn [fst] in *. apply IH.
-  destruct l as [w| | |]; cbn [nstep] in S; rewrite ?P in S.
-  - injection S as <- _. exact P.
-  - injection S as <- _. exact P.
-  - injection S as <- _. exact P.
-  - destruct (n_flag x); injection S as <- _; [reflexivity|exact P].
+  pose proof (nstep_leading_stable v x l P) as P1.
+  destruct (nstep x l) as [x1 o]. specialize (IH x1 P1). destruct (nrun x1 tl) as [x2 os]. exact IH.
 Qed.
 
-(* every revision handed out by the node — whatever the interleaving of client requests with the
-   steps of the callback — is above the version the callback installed *)
+(* every revision handed out by the node — whatever the interleaving of client requests (and follower
+   reads still in flight) with the steps of the callback — is above the version the callback installed *)
 Lemma admitted_above ls : forall x, node_inv x ->
   forall r, In (Some r) (snd (nrun x ls)) -> exists v, n_pc (fst (nrun x ls)) = CbLeading v /\ v < r.
 Proof.
@@ -659,14 +669,16 @@ Proof.
   pose proof (IH x1 I1 r) as IH1. pose proof (leading_stable) as St.
   destruct (nrun x1 tl) as [x2 os] eqn:R. cbn [fst snd] in *.
   destruct Hin as [E|Hin]; [|apply IH1; exact Hin].
-  subst o. destruct l as [w| | |]; cbn [nstep] in S.
+  subst o. destruct l as [w| | | | |q]; cbn [nstep] in S.
   - destruct (n_pc x); discriminate.
   - destruct (n_pc x); discriminate.
   - destruct (n_pc x); discriminate.
   - destruct (n_flag x) eqn:F; [|discriminate]. injection S as <- <-.
     destruct (flag_implies_installed x I F) as [v [P L]]. exists v. split; [|lia].
-    specialize (St v tl (mkNode (n_pc x) (mkL (deal (n_lead x) + 1) (deal (n_lead x) + 1)) true) P).
+    specialize (St v tl (mkNode (n_pc x) (mkL (deal (n_lead x) + 1) (deal (n_lead x) + 1)) true (n_pending x)) P).
     rewrite R in St. exact St.
+  - destruct (n_flag x); discriminate.
+  - destruct (n_pending x); discriminate.
 Qed.
 
 Lemma node_inv_run ls : forall x, node_inv x -> node_inv (fst (nrun x ls)).
@@ -684,6 +696,48 @@ Proof.
   pose proof (admitted_above ls node0 node_inv0) as A.
   pose proof (node_inv_run ls node0 node_inv0) as I.
   destruct (nrun node0 ls) as [x os]. cbn [fst snd] in *. split; [apply flag_implies_installed; exact I|exact A].
+Qed.
+
+(* The READ revision (committed) of the new leader: the full-strength statement "once the leader flag
+   is up, the committed revision is at or above the installed version" is REFUTED by a follower read
+   that passed its IsLeader() check before the election and whose answer arrives afterwards
+   (finding C15-F2); it holds for every run without such a late install. *)
+Definition committed_ok (x : node) : Prop :=
+  match n_pc x with
+  | CbLeading v | CbInstalled v => v <= committed (n_lead x)
+  | _ => True
+  end.
+
+Definition committed_follows_statement : Prop :=
+  forall ls, committed_ok (fst (nrun node0 ls)).
+
+Lemma committed_follows_refuted : ~ committed_follows_statement.
+Proof.
+  intros H. specialize (H [NSyncCheck; NParse 100; NInstall; NFlag; NSyncInstall 50]).
+  vm_compute in H. apply H. reflexivity.
+Qed.
+
+Lemma committed_ok_step x l :
+  node_inv x -> is_sync_install l = false -> committed_ok x -> committed_ok (fst (nstep x l)).
+Proof.
+  intros I. unfold committed_ok. destruct l as [v| | | | |r]; cbn [is_sync_install nstep]; try discriminate; intros _.
+  - destruct (n_pc x) eqn:P; cbn [fst n_pc]; rewrite ?P; auto.
+  - destruct (n_pc x) eqn:P; cbn [fst n_pc n_lead]; rewrite ?P; auto. intros _. unfold set_current; cbn [committed]. lia.
+  - destruct (n_pc x) eqn:P; cbn [fst n_pc n_lead]; rewrite ?P; auto.
+  - destruct (n_flag x) eqn:F; cbn [fst n_pc n_lead]; auto.
+    destruct (flag_implies_installed x I F) as [v [P L]]. rewrite P. intros _. cbn [committed]. lia.
+  - destruct (n_flag x); cbn [fst n_pc n_lead]; auto.
+Qed.
+
+(* without a late install the committed revision follows: from any state that satisfies the invariants *)
+Lemma committed_follows_except ls : forall x,
+  node_inv x -> committed_ok x -> forallb (fun l => negb (is_sync_install l)) ls = true ->
+  committed_ok (fst (nrun x ls)).
+Proof.
+  induction ls as [|l tl IH]; intros x I C H; [exact C|]. cbn [forallb] in H. apply andb_true_iff in H as [Hl Ht].
+  apply negb_true_iff in Hl. cbn [nrun].
+  pose proof (node_inv_step x l I) as I1. pose proof (committed_ok_step x l I Hl C) as C1.
+  destruct (nstep x l) as [x1 o]. specialize (IH x1 I1 C1 Ht). destruct (nrun x1 tl). exact IH.
 Qed.
 
 (* ---------- elections with a failing timestamp read after the lock write ---------- *)
